@@ -97,6 +97,8 @@ def zoo_warn() -> dict:
                          "unevaluatedProperties": False, "if": {"properties": {"a": {"const": 1}}}, "then": {"required": ["b"]}, "else": {"required": ["c"]}, "not": {"required": ["z"]},
                          "properties": {"a": I, "b": S, "c": {"type": "array", "contains": I, "minContains": 1, "uniqueItems": True}, "enc": {"type": "string", "contentMediaType": "image/png", "contentEncoding": "base64"}}}
     sch["ArrayNoItems"] = {"type": "array"}
+    # `required` naming what nobody declares, and a property whose name needs escaping, inside a composition
+    sch["GhostComp"] = {"allOf": [{"$ref": "#/components/schemas/Leaf"}, {"type": "object", "required": ["ghost", 'q"uote', "back\\slash"], "properties": {'q"uote': S, "back\\slash": S}}]}
     sch["MixedEnum"] = {"enum": ["a", 1]}
     paths = doc["paths"]
     paths["/styles"] = {"get": {"operationId": "styles", "parameters": [
